@@ -7,6 +7,7 @@ mod codec;
 mod docs;
 mod heads;
 mod livesync;
+mod netpair;
 mod query;
 mod replica;
 mod session;
@@ -60,7 +61,9 @@ pub fn read_schedules(path: &str) -> Vec<Value> {
 
 fn main() {
     // panics in the code under test are caught and logged as data; keep the default hook quiet
-    std::panic::set_hook(Box::new(|_| {}));
+    if std::env::var("VDRIVE_PANIC_MSG").is_err() {
+        std::panic::set_hook(Box::new(|_| {}));
+    }
     let args = parse_args();
     let seed = args.num("seed", 1);
     let out = args.out();
